@@ -9,9 +9,10 @@
 (* vf/skeleton.py decorates with variables and tracer calls.               *)
 (*                                                                         *)
 (* Class predicates are encoded in the productions:                        *)
-(*   - break/continue only inside a loop body and not inside a finally     *)
-(*     block of that loop (PEP 765 / documented limit of C01);             *)
-(*   - return/raise not inside finally;                                    *)
+(*   - break/continue only inside a loop body, and never leaving a finally *)
+(*     block (PEP 765 / documented limit of C01): a loop nested in a       *)
+(*     finally block may use them;                                         *)
+(*   - return/raise nowhere inside a finally block, however deeply nested; *)
 (*   - LoopElse = TRUE adds for/while-else (class C05 only);               *)
 (*   - nothing follows a jump in its block (dead code is legal Python but  *)
 (*     adds no behaviour).                                                 *)
@@ -37,18 +38,20 @@ Compound(h) ==
   IF h.d >= MaxD THEN {} ELSE
   { <<Tk("if"), Sub(h, h.lp, h.fin), Tk("end")>>,
     <<Tk("if"), Sub(h, h.lp, h.fin), Tk("else"), Sub(h, h.lp, h.fin), Tk("end")>>,
-    <<Tk("while"), Sub(h, TRUE, FALSE), Tk("end")>>,
-    <<Tk("for"), Sub(h, TRUE, FALSE), Tk("end")>>,
+    <<Tk("while"), Sub(h, TRUE, h.fin), Tk("end")>>,
+    <<Tk("for"), Sub(h, TRUE, h.fin), Tk("end")>>,
     <<Tk("with"), Sub(h, h.lp, h.fin), Tk("end")>>,
     <<Tk("try"), Sub(h, h.lp, h.fin), Tk("finally"), Sub(h, FALSE, TRUE), Tk("end")>>,
     <<Tk("try"), Sub(h, h.lp, h.fin), Tk("except"), Sub(h, h.lp, h.fin), Tk("end")>>,
     <<Tk("try"), Sub(h, h.lp, h.fin), Tk("except"), Sub(h, h.lp, h.fin), Tk("finally"), Sub(h, FALSE, TRUE), Tk("end")>> }
   \cup (IF LoopElse THEN
-  { <<Tk("while"), Sub(h, TRUE, FALSE), Tk("else"), Sub(h, h.lp, h.fin), Tk("end")>>,
-    <<Tk("for"), Sub(h, TRUE, FALSE), Tk("else"), Sub(h, h.lp, h.fin), Tk("end")>> } ELSE {})
+  { <<Tk("while"), Sub(h, TRUE, h.fin), Tk("else"), Sub(h, h.lp, h.fin), Tk("end")>>,
+    <<Tk("for"), Sub(h, TRUE, h.fin), Tk("else"), Sub(h, h.lp, h.fin), Tk("end")>> } ELSE {})
   \cup (IF Funcs /\ ~h.fn /\ h.d <= 1 THEN
-  { <<Tk("def"), [Hole(h.d + 1, FALSE, FALSE, MaxLen, TRUE) EXCEPT !.fn = TRUE], Tk("end"), Tk("call")>> } ELSE {})
-Jumps(h) == (IF h.lp /\ ~h.fin THEN {<<Tk("break")>>, <<Tk("continue")>>} ELSE {})
+  { <<Tk("def"), [Hole(h.d + 1, FALSE, FALSE, MaxLen, TRUE) EXCEPT !.fn = TRUE], Tk("end"), Tk(IF h.fin THEN "callnr" ELSE "call")>> } ELSE {})
+\* lp is reset on entering a finally block, so inside one it means "a loop that lies inside this finally block":
+\* break/continue then stay inside the finally block (legal, in the class); return/raise would leave it.
+Jumps(h) == (IF h.lp THEN {<<Tk("break")>>, <<Tk("continue")>>} ELSE {})
             \cup (IF ~h.fin THEN {<<Tk("return")>>, <<Tk("raise")>>} ELSE {})
 Next ==
   /\ Holes # {} /\ stmts < MaxStmts
